@@ -29,7 +29,8 @@ def params_for(rng, quick):
                 ch_pad=rng.choice([0, 60, 300]), tp_grease=rng.random() < 0.2,
                 l2=rng.choice([{}, {}, {}, {"ip6_ext": 1}, {"ip4_opts": 1}, {"eth_pad": 1}, {"eth_fcs": 1}]),
                 init_token=rng.choice([0, 0, 5, 37]), len_width=rng.choice([None, 2, 4, 8]),
-                migrate_at=rng.choice([None, None, None, 5, 7]), ts_equal=rng.random() < 0.25, own_noise=rng.random() < 0.25)
+                migrate_at=rng.choice([None, None, None, 5, 7]), ts_equal=rng.random() < 0.25, own_noise=rng.random() < 0.25,
+                ts_step=rng.choice([None, None, 1, 2]))        # capture times 1 or 2 microseconds apart (a burst) are still distinct times
 
 
 def _sublist(a, b):
@@ -121,6 +122,7 @@ def run(chk):
     chk.extra["kf_model"] = dict(KF_EarlySuiteGuess=dict(violates=r.violated, expected="DoneExact"))
     behs = gen(chk, dict(MaxApp="3"), 40 if quick else 600, chk.seed)
     behs += gen(chk, dict(ku, MaxApp="5"), 15 if quick else 300, chk.seed + 1)
+    behs += gen(chk, dict(ku, MaxApp="5", SuiteSet='{"1302","1304"}'), 10 if quick else 200, chk.seed + 6)     # key updates under SHA-384 / CCM_8 suites
     late = gen(chk, dict(ku, MaxApp="5", AllowLate="TRUE"), 15 if quick else 300, chk.seed + 3)
     behs += [b for b in late if [d["sn"] for d in b["hist"]] != sorted(d["sn"] for d in b["hist"])]
     # undecryptable short-header datagrams on the connection's own 4-tuple (same phase: harmless; other phase: documented deviation,
